@@ -20,6 +20,46 @@ def installed_dialects():
     return list(SqlFluffLineageAnalyzer.SUPPORTED_DIALECTS)
 
 
+def has_where_in(s):
+    def q_(q):
+        if q[0] == "select":
+            return q[4] is not None or any(q_(rr[1]) for rr in q[2] if rr[0] == "derived")
+        if q[0] == "union":
+            return q_(q[1]) or q_(q[2])
+        return q_(q[2]) or q_(q[3])
+    qq = s[3] if s[0] == "insert" else s[2] if s[0] in ("ctas", "view") else s[1] if s[0] == "query" else None
+    return qq is not None and q_(qq)
+
+
+def has_window(s):
+    return "'win'" in repr(s)
+
+
+def has_group_with_derived(s):
+    def in_group(rr):
+        return rr[0] == "derived" or rr[0] == "group" and (in_group(rr[1]) or in_group(rr[2]))
+
+    def q_(q):
+        if q[0] == "select":
+            return any(rr[0] == "group" and in_group(rr) for rr in q[2]) or any(q_(rr[1]) for rr in q[2] if rr[0] == "derived") \
+                or (q[4] is not None and q_(q[4][1]))
+        if q[0] == "union":
+            return q_(q[1]) or q_(q[2])
+        return q_(q[2]) or q_(q[3])
+    qq = astgen.stmt_query(s)
+    return qq is not None and q_(qq)
+
+
+# recorded per-dialect deviations (property C09): (finding id, applies(dialect, statement))
+DIALECT_CLASSES = [
+    ("K-C09-1", lambda d, s: d == "clickhouse" and has_where_in(s)),
+    ("K-C09-2", lambda d, s: d == "exasol" and s[0] == "view"),
+    ("K-C09-6", lambda d, s: d == "sqlite" and has_window(s)),
+    ("K-C09-7", lambda d, s: d == "non-validating" and has_group_with_derived(s)),
+]
+
+
+
 def spec_strings(stmts, ds=""):
     return coq_eval(SPEC_HEADER, ["show_spec %s %s" % (astgen.coq_string(ds), astgen.g_stmt(s)) for s in stmts], shard=400)
 
@@ -85,7 +125,7 @@ def exactness_check(pid: str, part: str) -> int:
 
     # ---- generated core grammar -------------------------------------------------------------
     n = 260 if quick else 4000
-    stmts = [astgen.gen_stmt(r, r.choice([0, 1, 2, 2])) for _ in range(n)]
+    stmts = astgen.gen_batch(r, n, (0, 1, 2, 2), shapes=110 if quick else None)
     for s in stmts:
         dist["kinds"][s[0]] = dist["kinds"].get(s[0], 0) + 1
     spec = spec_strings(stmts)
@@ -102,6 +142,10 @@ def exactness_check(pid: str, part: str) -> int:
                 continue
             dist["per_dialect"][d] = dist["per_dialect"].get(d, 0) + 1
             case = {"suite": "T3-generated", "dialect": d, "sql": x["rec"]["sql"], "ast": astgen.g_stmt(stmts[i])}
+            if d != "ansi" and (x["impl"].startswith("ERR:UnsupportedStatement") or any(f(d, stmts[i]) for _, f in DIALECT_CLASSES)):
+                # what a dialect accepts, and the recorded per-dialect deviations, are property C09's business
+                dist["left_to_C09"] = dist.get("left_to_C09", 0) + 1
+                continue
             if x["impl"].startswith("ERR"):
                 case.update(impl=x["impl"], spec=spec[i])
                 spec_failures.append(case)
@@ -124,6 +168,29 @@ def exactness_check(pid: str, part: str) -> int:
                 disagreements.append(case)
         if res:
             ck.sample({"dialect": d, "sql": res[0]["rec"]["sql"], "result": res[0].get("summary")})
+
+    # ---- WITH RECURSIVE: table level only (specification Ast/SpecRec.v) ---------------------------------
+    if part == "tables":
+        rec = [astgen.gen_recursive(r) for _ in range(40 if quick else 600)]
+        rspec = coq_eval("From SV Require Import Ast.SpecRec.\nOpen Scope string_scope.",
+                         ["show_tables_rec \"\" %s" % astgen.g_stmt(s) for s in rec], shard=400)
+        for d in ["ansi", "postgres", "mysql", "sqlite"] + ([] if quick else ["snowflake", "bigquery", "redshift", "trino", "duckdb"]):
+            res = run(records(rec, dialect=d, opts=astgen.Opts(recursive=True)))
+            for i, x in enumerate(res):
+                ck.count()
+                if "skip" in x:
+                    dist["parse_rejected"][d] = dist["parse_rejected"].get(d, 0) + 1
+                    continue
+                dist["recursive"] = dist.get("recursive", 0) + 1
+                case = {"suite": "T3-recursive-cte", "dialect": d, "sql": x["rec"]["sql"], "ast": astgen.g_stmt(rec[i])}
+                i_part = x["impl"] if x["impl"].startswith("ERR") else tables_part(x["summary"])
+                ck.nontriv((d, x["rec"]["sql"]))
+                if i_part != rspec[i]:
+                    case.update(impl=i_part, spec=rspec[i])
+                    spec_failures.append(case)
+                elif [dataset_nodes(g) for g in statement_graphs(x["impl"])] != [dataset_nodes(g) for g in statement_graphs(x["model"])]:
+                    case.update(impl=x["impl"][:3000], model=x["model"][:3000])
+                    disagreements.append(case)
 
     # ---- corpus: test-suite SQL, tie only (no specification for arbitrary SQL) -------------------
     recs = [x for x in corpus.load() if x["dialect"] != "non-validating" and (not quick or not x.get("origin", "").startswith("tpcds"))]
@@ -184,8 +251,8 @@ def exactness_check(pid: str, part: str) -> int:
         ck.violation(c, "tie", no_input=True)
     if not proofs_ok:
         ck.violation({"broken": "proof obligations of Props/%s.v" % pid, "detail": ck.broken_obligation}, "proof", no_input=not spec_failures)
-    return ck.finish(rule="%d generated core-SQL statements (statement kind x FROM shape {single, explicit joins, comma joins, parenthesised join "
+    return ck.finish(rule="%d random + systematic-shape core-SQL statements, WITH RECURSIVE statements at table level (statement kind x FROM shape {single, explicit joins, comma joins, parenthesised join "
                           "groups, derived tables, CTE references} x items {column, qualified column, star, function, arithmetic, CASE, CAST, "
-                          "window, unresolved column} x set operation x WITH x WHERE-IN sub-query, nesting <= 2) under dialects %s, plus the "
+                          "window, unresolved column} x set operation x WITH (1-2 CTEs) x WHERE-IN sub-query x schema-qualified column references x alias reuse across scopes, nesting <= 2) under dialects %s, plus the "
                           "harvested corpus (tie only) and the witnesses of the recorded defect classes; non-trivial = distinct (dialect, SQL) "
                           "with non-empty lineage" % (n, ",".join(dialects)))
